@@ -191,6 +191,16 @@ def check(model: Model, run: Run) -> None:
     if n5 < 1:
         run.cannot('no memoised rendering found on the attribute classes')
 
+    # ------------------------------------------------------------------ R7 per-session objects keep their tables to themselves
+    run.rule(
+        'C19.R7',
+        'what a session negotiated is kept in that session: a mutable container declared at class level and filled through `self` '
+        'by an instance method is one table for every instance of the class - per-session classes (RequirePath, Negotiated, the '
+        'capability and message objects) create theirs in __init__; the few process-wide tables that exist on purpose are listed',
+        floor=5,
+    )
+    _r7_shared_tables(model, run)
+
     # ------------------------------------------------------------------ R6 what is recognised by identity stays in its table
     run.rule('C19.R6', 'a class-level table whose entries are recognised by identity (`self is entry` while walking the table) only grows: nothing deletes, pops, clears or replaces it at run time, otherwise an object decoded earlier stops being what it was', floor=1)
     ident_tables: dict[tuple[str, str], FuncInfo] = {}
@@ -358,3 +368,72 @@ def check_thorough(model: Model, run: Run) -> None:
         run.violation(fi.qualname, norm(c)[:60], fi.loc(c), 'a shared singleton is mutated while decoding')
     if not bad:
         run.ok('%d mutating calls on the decode path, none on a singleton' % n)
+
+
+# ---------------------------------------------------------------------------------------------- R7
+R7_PROCESS_WIDE = {
+    ('exabgp.bgp.message.operational.SequencedOperationalFamily', '__sequence_number'): 'sequence numbers of OPERATIONAL messages are per router-id across sessions by design',
+    ('exabgp.bgp.neighbor.neighbor.Neighbor', '_GLOBAL'): 'process-wide uid counter',
+    ('exabgp.reactor.api.response.json.JSON', '_count'): 'per-neighbor event counters of the API, keyed by neighbor uid',
+    ('exabgp.reactor.network.connection.Connection', 'identifier'): 'connection numbering per direction, process-wide on purpose',
+    ('exabgp.rib.RIB', '_cache'): 'the RIB of a neighbor survives its Neighbor object (reload), keyed by neighbor name',
+}
+
+
+def _r7_shared_tables(model: Model, run: Run) -> None:
+    MUT = ('append', 'extend', 'add', 'update', 'setdefault', 'pop', 'clear', 'remove', 'insert', 'popitem', 'discard', 'appendleft')
+    n = 0
+    for q, ci in sorted(model.classes.items()):
+        cl: dict[str, ast.AST] = {}
+        for st in ci.node.body:
+            tg, v = None, None
+            if isinstance(st, ast.Assign) and isinstance(st.targets[0], ast.Name):
+                tg, v = st.targets[0].id, st.value
+            if isinstance(st, ast.AnnAssign) and isinstance(st.target, ast.Name) and st.value is not None:
+                tg, v = st.target.id, st.value
+            if tg and (isinstance(v, (ast.Dict, ast.List, ast.Set)) or (isinstance(v, ast.Call) and isinstance(v.func, ast.Name) and v.func.id in ('dict', 'list', 'set', 'deque', 'defaultdict'))):
+                cl[tg] = st
+        if not cl:
+            continue
+        rebound: set[str] = set()
+        for f in ci.methods.values():
+            for a in ast.walk(f.node):
+                if isinstance(a, (ast.Assign, ast.AnnAssign)):
+                    for t in (a.targets if isinstance(a, ast.Assign) else [a.target]):
+                        d = dotted(t) or ''
+                        if d.startswith('self.') and d[5:] in cl:
+                            rebound.add(d[5:])
+        hits: dict[str, tuple[FuncInfo, ast.AST]] = {}
+        for f in ci.methods.values():
+            if not f.node.args.args or f.node.args.args[0].arg != 'self':
+                continue
+            for x in ast.walk(f.node):
+                name = None
+                if isinstance(x, ast.Call) and isinstance(x.func, ast.Attribute) and x.func.attr in MUT:
+                    d = dotted(x.func.value) or ''
+                    if d.startswith('self.') and d[5:] in cl:
+                        name = d[5:]
+                if isinstance(x, (ast.Assign, ast.AugAssign, ast.Delete)):
+                    for t in (x.targets if isinstance(x, (ast.Assign, ast.Delete)) else [x.target]):
+                        if isinstance(t, ast.Subscript):
+                            d = dotted(t.value) or ''
+                            if d.startswith('self.') and d[5:] in cl:
+                                name = d[5:]
+                if name and name not in rebound:
+                    hits.setdefault(name, (f, x))
+        n += len(cl)
+        for name, (f, x) in sorted(hits.items()):
+            key = (q, name.lstrip('_') if False else name)
+            if (q, name) in R7_PROCESS_WIDE:
+                run.ok('%s.%s: process-wide on purpose' % (short(q), name), R7_PROCESS_WIDE[(q, name)])
+                continue
+            run.violation(
+                q,
+                'class-level container %s is filled through self (%s)' % (name, norm(x)[:50]),
+                f.loc(x),
+                '%s is created once, in the class body, and %s writes into it through self without the instance ever getting a '
+                'container of its own: every instance shares one table, so what one session negotiated (ADD-PATH per family) is in force '
+                'for every other session of the process' % (name, short(f.qualname)),
+            )
+    if n < 5:
+        run.cannot('only %d class-level containers found' % n)
